@@ -193,7 +193,10 @@ def run(ctx):
 
 
 def replay(ctx, data):
-    v = data.get("input") or (data.get("details") or [{}])[0].get("input")
+    import solvecommon
+    v = solvecommon.replay_input(data)
+    if v is None or "tl" not in v or v["tl"] is None:
+        return 1
     r = impl.run_cases([dict(op="rdfs", tl=enc(as_tl(v["tl"])), finals=enc(v["finals"]))])[0]
     exp = spec_coreach(v["tl"], v["finals"])
     print("implementation:", r, "specification:", exp)
